@@ -212,15 +212,12 @@ def rand_cfg(rng, focus):
     return cfg
 
 
-def run_family(prop, tier):
-    t0 = time.time()
-    rng = random.Random(seed() * 1000 + int(prop[1:]))
-    h = substrate.load()
+def make_specs(prop, tier, rng):
+    """instance specifications (grammar, length, matrices, configuration); grammars hold callables, so the list is
+    built before the worker processes are forked"""
     n_total = {'quick': 900, 'thorough': 30000}[tier]
-    events, metas = [], {}
-    kinds = {}
-    t_gen = time.time()
-    while len(events) < n_total:
+    specs = []
+    while len(specs) < n_total:
         r = rng.random()
         n = rng.choice([1, 2, 2, 3, 3, 3, 4, 4])
         if r < 0.62:
@@ -248,10 +245,127 @@ def run_family(prop, tier):
                 elif mode == 2:
                     keep = rng.randrange(len(tag8[i]))
                     tag8[i] = [(v if j == keep or rng.random() < 0.3 else -32768) for j, v in enumerate(tag8[i])]
-        ev, meta = run_instance(h, g, n, tag8, dep8, cfg, len(events) + 1)
-        events.append(ev)
-        metas[ev['id']] = meta
-        kinds[g['kind']] = kinds.get(g['kind'], 0) + 1
+        specs.append((g, n, tag8, dep8, cfg))
+    return specs
+
+
+def hang_event(spec, eid):
+    g, n, tag8, dep8, cfg = spec
+    return {'grammar': g['kind'], 'N': n, 'lexicon': [str(c) for c in g['lex']], 'categories': [str(c) for c in g['allc']], 'roots': [str(c) for c in g['roots']],
+            'tag_x8': tag8, 'dep_x8': dep8, 'config': cfg, 'failed': None, 'pops': None, 'result': 'SEARCH DID NOT TERMINATE'}
+
+
+def run_specs_parallel(specs, name, stall_s=120):
+    """run every spec through the real parser in forked worker processes; a worker that makes no progress for stall_s
+    seconds is killed and the instance it was working on is reported as a hang.  Returns (events, metas, hangs)."""
+    import json
+    import os
+    import signal
+    from .common import scratch
+    d = scratch(name + '-par')
+    W = max(1, min(NCPU, len(specs) // 8 or 1))
+    pending = {w: list(range(w, len(specs), W)) for w in range(W)}
+    events, metas, hangs = {}, {}, []
+    procs = {}
+
+    def start(w):
+        out = os.path.join(d, 'w%d-%d.jsonl' % (w, len(pending[w])))
+        todo = list(pending[w])
+        pid = os.fork()
+        if pid == 0:
+            try:
+                h = substrate.load()
+                with open(out, 'w') as f:
+                    for i in todo:
+                        f.write(json.dumps({'start': i}) + '\n')
+                        f.flush()
+                        g, n, tag8, dep8, cfg = specs[i]
+                        ev, meta = run_instance(h, g, n, tag8, dep8, cfg, i + 1)
+                        f.write(json.dumps({'done': i, 'ev': ev, 'meta': meta}, ensure_ascii=True) + '\n')
+                        f.flush()
+                os._exit(0)
+            except BaseException as e:
+                try:
+                    with open(out, 'a') as f:
+                        f.write(json.dumps({'crash': repr(e)[:300]}) + '\n')
+                finally:
+                    os._exit(3)
+        procs[w] = {'pid': pid, 'out': out, 'last_size': -1, 'last_change': time.time()}
+    for w in range(W):
+        if pending[w]:
+            start(w)
+
+    def harvest(w):
+        """read the worker's file: completed instances are removed from pending; returns the instance in progress"""
+        cur = None
+        try:
+            with open(procs[w]['out']) as f:
+                for line in f:
+                    try:
+                        r = json.loads(line)
+                    except ValueError:
+                        continue
+                    if 'start' in r:
+                        cur = r['start']
+                    elif 'done' in r:
+                        i = r['done']
+                        events[i] = r['ev']
+                        metas[i] = r['meta']
+                        if i in pending[w]:
+                            pending[w].remove(i)
+                        cur = None
+                    elif 'crash' in r:
+                        raise Machinery('parser worker crashed: %s' % r['crash'])
+        except FileNotFoundError:
+            pass
+        return cur
+    while procs:
+        time.sleep(0.2)
+        for w in list(procs):
+            pr = procs[w]
+            pid, status = os.waitpid(pr['pid'], os.WNOHANG)
+            try:
+                size = os.path.getsize(pr['out'])
+            except OSError:
+                size = 0
+            if size != pr['last_size']:
+                pr['last_size'], pr['last_change'] = size, time.time()
+            if pid != 0:
+                cur = harvest(w)
+                del procs[w]
+                if os.WIFSIGNALED(status) and cur is not None:
+                    # the parser crashed the process (e.g. segmentation fault) while working on instance cur
+                    hangs.append((cur, 'parser process died with signal %d' % os.WTERMSIG(status)))
+                    pending[w].remove(cur)
+                elif os.WIFEXITED(status) and os.WEXITSTATUS(status) not in (0,):
+                    raise Machinery('parser worker exited with status %d' % os.WEXITSTATUS(status))
+                if pending[w]:
+                    start(w)
+            elif time.time() - pr['last_change'] > stall_s:
+                os.kill(pr['pid'], signal.SIGKILL)
+                os.waitpid(pr['pid'], 0)
+                cur = harvest(w)
+                del procs[w]
+                if cur is not None:
+                    hangs.append((cur, 'no result after %d s' % stall_s))
+                    pending[w].remove(cur)
+                if pending[w]:
+                    start(w)
+    order = sorted(events)
+    return [events[i] for i in order], {events[i]['id']: metas[i] for i in order}, hangs
+
+
+def run_family(prop, tier):
+    t0 = time.time()
+    rng = random.Random(seed() * 1000 + int(prop[1:]))
+    substrate.load()
+    t_gen = time.time()
+    specs = make_specs(prop, tier, rng)
+    events, metas, hangs = run_specs_parallel(specs, prop.lower())
+    kinds = {}
+    for e_i, sp in enumerate(specs):
+        kinds[sp[0]['kind']] = kinds.get(sp[0]['kind'], 0) + 1
+    n_total = len(specs)
     gen_wall = time.time() - t_gen
     rejects, stats = validate('traces/ParserTrace.tla', events, prop.lower(), per_shard=max(40, n_total // (NCPU * 3)), timeout=3000)
     from .trace import binding_demo
@@ -273,6 +387,10 @@ def run_family(prop, tier):
                 return e
     demo = binding_demo('traces/ParserTrace.tla', events, [('reported_score_changed', score_off), ('last_pop_priority_raised', prio_up), ('root_label_replaced', relabel)], prop.lower())
     viols = []
+    for (i, why) in hangs:
+        m = hang_event(specs[i], i + 1)
+        m['hang'] = why
+        viols.append(Violation(prop, prop + '.search_did_not_terminate', '%s N=%d tag=%s dep=%s cfg=%s' % (m['grammar'], m['N'], m['tag_x8'], m['dep_x8'], sorted(m['config'].items())), m))
     other = {}
     for (i, clause) in rejects:
         if clause.startswith(prop + '.'):
@@ -317,3 +435,144 @@ class TableGrammar(object):
 
     def unary(self, x):
         return list(self.U.get(x, []))
+
+
+# ------------------------------------------------------------------ design-level conformance with AStar.tla (pop by pop)
+class Recorder(object):
+    """wraps a grammar callable and records the categories of its results in call order (to rebuild the parser's id table)"""
+
+    def __init__(self, fn, log):
+        self.fn, self.log = fn, log
+
+    def __call__(self, *a):
+        rs = self.fn(*a)
+        self.log.extend(r.cat for r in rs)
+        return rs
+
+
+def design_conformance(tier, rng):
+    """every pop of real searches replayed against the actions of AStar.tla (traces/AStarTrace.tla).
+    Returns a statistics dict; deviations are reported, not raised (a different correct design is no violation)."""
+    import json
+    import os
+    from depccg.types import Token, ScoringResult
+    from .common import scratch
+    from .tlc import run_tlc, require_clean, write_ndjson
+    h = substrate.load()
+    ngroups = 10 if tier == 'quick' else 80
+    per_group = 25 if tier == 'quick' else 60
+    d = scratch('astartrace')
+    jobs = []
+    total_searches = total_pops = 0
+    for gi in range(ngroups):
+        n = rng.choice([1, 2, 2, 3, 3])
+        if gi % 3 == 2:
+            g = None
+            for _ in range(30):
+                g = real_grammar(rng, 'en' if gi % 2 else 'ja', n)
+                if g is not None and len(g['allc']) <= 10:
+                    break
+                g = None
+            if g is None:
+                g = synthetic_grammar(rng, rng.choice('LR'))
+        else:
+            g = synthetic_grammar(rng, rng.choice('LR'))
+        lex, allc = g['lex'], g['allc']
+        K = len(lex)
+        idx = {c: i + 1 for i, c in enumerate(allc)}
+        cfg = rand_cfg(rng, 'C01')
+        cfg['k'] = rng.choice([1, 1, 2])
+        cfg['maxstep'] = 10 ** 7
+        bin_t, un_t = [], []
+        for x in allc:
+            ur = g['un'](x)
+            if ur:
+                un_t.append({'x': idx[x], 'res': [{'c': idx.get(r.cat, 0), 'lab': r.op_string, 'sym': r.op_symbol} for r in ur]})
+            for y in allc:
+                rs = g['bin'](x, y)
+                if rs:
+                    bin_t.append({'x': idx[x], 'y': idx[y], 'res': [{'c': idx.get(r.cat, 0), 'lab': r.op_string, 'sym': r.op_symbol, 'hl': bool(r.head_is_left)} for r in rs]})
+        hdr = {'g': {'N': n, 'K': K, 'C': len(allc), 'tag': [], 'dep': [], 'bin': bin_t, 'un': un_t, 'roots': [idx[c] for c in g['roots']],
+                     'pen': cfg['pen8'], 'prune': cfg['prune'], 'usebeta': cfg['usebeta'], 'b16': cfg['b16'], 'words': ['w%d' % i for i in range(n)]},
+               'k': cfg['k'], 'maxstep': cfg['maxstep']}
+        events = []
+        eid = 0
+        for si in range(per_group):
+            tag8, dep8 = make_scores(rng, n, K, rng.choice(['ties', 'small', 'wide']))
+            toks = [Token.of_word('w%d' % i) for i in range(n)]
+            log = []
+            table = list(lex)
+            for c in g['roots']:
+                if c not in table:
+                    table.append(c)
+            h.rt.pops_clear()
+            res = h.parsing.run([toks], [ScoringResult(np.array(tag8, dtype=np.float32) / 8, np.array(dep8, dtype=np.float32) / 8)], list(lex), list(g['roots']),
+                                Recorder(g['bin'], log), Recorder(g['un'], log), unary_penalty=cfg['pen8'] / 8.0, beta=math.exp(-cfg['b16'] / 16.0),
+                                use_beta=cfg['usebeta'], pruning_size=cfg['prune'], nbest=cfg['k'], max_step=cfg['maxstep'])[0]
+            for c in log:
+                if c not in table:
+                    table.append(c)
+            pops = h.rt.pops()
+            if len(pops) > 150 or any(p['cat'] >= len(table) or table[p['cat']] not in idx for p in pops):
+                continue
+            eid += 1
+            events.append({'e': 'matrices', 'id': eid, 'tag': tag8, 'dep': dep8})
+            eid += 1
+            events.append({'e': 'setup', 'id': eid})
+            addr = {}
+            nstored = 0
+            for p in pops:
+                eid += 1
+                st = 0
+                if not p['fin'] and p['stored']:
+                    nstored += 1
+                    addr[p['stored']] = nstored
+                    st = nstored
+                events.append({'e': 'pop', 'id': eid, 'fin': p['fin'], 'cat': idx[table[p['cat']]], 'start': p['start'] + 1, 'len': p['len'], 'head': p['head'] + 1,
+                               'in': _exact8(p['in'], 'in'), 'out': _exact8(p['out'], 'out'), 'rule': p['rule'], 'stored': st,
+                               'left': addr.get(p['left'], 0), 'right': addr.get(p['right'], 0)})
+            failed = res[0].score == -float('inf')
+            eid += 1
+            events.append({'e': 'result', 'id': eid, 'failed': failed, 'scores': [] if failed else [_exact8(r.score, 'score') for r in res]})
+            total_searches += 1
+            total_pops += len(pops)
+        if not events:
+            continue
+        tp = os.path.join(d, 'g%03d.ndjson' % gi)
+        hp = os.path.join(d, 'g%03d.hdr.json' % gi)
+        write_ndjson(tp, events)
+        with open(hp, 'w') as f:
+            json.dump(hdr, f)
+        jobs.append((gi, tp, hp, events, g['kind']))
+    import concurrent.futures as cf
+
+    def one(job):
+        gi, tp, hp, events, kind = job
+        r = run_tlc('traces/AStarTrace.tla', workers=1, env={'TRACE_FILE': tp, 'HDR_FILE': hp}, timeout=1200, xss='256m')
+        return job, r
+    clauses, states, diverged_searches, inv = {}, 0, 0, []
+    with cf.ThreadPoolExecutor(max_workers=NCPU) as ex:
+        for job, r in ex.map(one, jobs):
+            require_clean(r, 'AStarTrace group %d' % job[0])
+            if r.postcondition_failed:
+                raise Machinery('AStarTrace group %d: trace not consumed\n%s' % (job[0], r.out[-800:]))
+            states += r.distinct
+            if r.violated:
+                inv.append({'group': job[0], 'grammar': job[4], 'invariant': r.violated})
+            bad_ids = set()
+            for (eid, clause, _k) in r.rejects():
+                clauses[clause] = clauses.get(clause, 0) + 1
+                bad_ids.add(eid)
+            # count searches containing a rejected event
+            cur_bad, seen_any = False, False
+            for e in job[3]:
+                if e['e'] == 'matrices':
+                    if seen_any and cur_bad:
+                        diverged_searches += 1
+                    cur_bad, seen_any = False, True
+                if e['id'] in bad_ids:
+                    cur_bad = True
+            if seen_any and cur_bad:
+                diverged_searches += 1
+    return {'searches': total_searches, 'agenda_pops_replayed_against_AStar_actions': total_pops, 'groups': len(jobs), 'states': states,
+            'searches_deviating_from_AStar_tla': diverged_searches, 'deviation_clauses': clauses, 'invariants_violated_along_real_behaviours': inv}
